@@ -54,7 +54,8 @@ func validateExtensionProviderEnvoyExtAuthzStatusOnError(status string) error {
 	if err != nil {
 		return fmt.Errorf("invalid statusOnError value %s: %v", status, err)
 	}
-	if _, found := envoytypev3.StatusCode_name[int32(code)]; !found {
+	// code 0 is the enum's "Empty" placeholder: Envoy rejects an HttpStatus carrying it
+	if _, found := envoytypev3.StatusCode_name[int32(code)]; !found || code == 0 {
 		return fmt.Errorf("unsupported statusOnError value %s, supported values: %v", status, envoytypev3.StatusCode_name)
 	}
 	return nil
